@@ -1,6 +1,7 @@
 package main
 
 import (
+	"strconv"
 	"fmt"
 	"go/ast"
 	"go/parser"
@@ -213,11 +214,12 @@ func (e *Ev) callStatic(fn *types.Func, recv *Term, args []Term, n *ast.CallExpr
 	sig := fn.Type().(*types.Signature)
 	if !e.spec && !e.quiet {
 		// ghost call counter of the path (spec builtin calls("KEY"))
-		n0 := 0
-		if t, ok := e.st.named["$calls:"+key]; ok {
-			fmt.Sscanf(t.S, "%d", &n0)
+		cur := e.callCount(key)
+		if n0, err := strconv.Atoi(cur); err == nil {
+			e.st.named["$calls:"+key] = Term{S: fmt.Sprint(n0 + 1), Sort: sInt}
+		} else {
+			e.st.named["$calls:"+key] = Term{S: app("+", cur, "1"), Sort: sInt}
 		}
-		e.st.named["$calls:"+key] = Term{S: fmt.Sprint(n0 + 1), Sort: sInt}
 	}
 	if b == nil {
 		e.g().errorf("%s: call to %s which has no contract", e.u.name, key)
@@ -1127,4 +1129,21 @@ func (e *Ev) calleePanic(cond, why string, n ast.Node, modItems []string, ce *Ev
 		return
 	}
 	e.panicIf(cond, why, n)
+}
+
+// callCount: the ghost counter of calls to key on this path. After a loop head the counters are
+// unknown (the loop body may have called anything any number of times) unless a loop invariant
+// pins them down.
+func (e *Ev) callCount(key string) string {
+	if t, ok := e.st.named["$calls:"+key]; ok {
+		return t.S
+	}
+	if _, unk := e.st.named["$callsUnknown"]; unk {
+		c := e.g().freshName("calls$" + sanitize(key))
+		e.st.declare(c, sInt)
+		e.st.assume(app(">=", c, "0"))
+		e.st.named["$calls:"+key] = Term{S: c, Sort: sInt}
+		return c
+	}
+	return "0"
 }
